@@ -58,7 +58,7 @@ RelBase(Q, clause, op, names, kinds) ==
     [] Q = "C06" -> \/ clause \in RuleClauses /\ names \cap RulesOf("C06") # {}
                     \/ clause \in StateClauses /\ names \cap CardF # {}
     [] Q = "C07" -> \/ clause \in RuleClauses /\ names \cap RulesOf("C07") # {}
-                    \/ clause \in {"outcome-other", "create-raised", "fault"}
+                    \/ clause \in {"outcome-other", "create-raised", "fault", "stuck"}
                     \/ clause \in StateClauses /\ names \cap PhaseF # {}
     [] Q = "C08" -> clause = "view" \/ clause \in {"probe", "probe-raised", "verifier", "query-changed-state", "outcome", "outcome-other", "refused-but-changed"}
     [] Q = "C10" -> \/ clause \in RuleClauses /\ names \cap RulesOf("C10") # {}
@@ -176,6 +176,9 @@ MicroOK(t, k, op, C, ev) ==
 \* asking changes nothing (digest over every field of the State before and after the whole batch of questions)
 ProbesOK(t, k, C, St, ev) ==
   /\ ev.psame \/ Report(t, k, "query-changed-state", "none", {}, {}, <<>>)
+  \* progress (C07): while the hand is not over, one of the operations - asked with default arguments - is available
+  /\ LET real == {j \in DOMAIN ev.probes : ev.probes[j].op # "no_operate" /\ ev.probes[j].a = NoArgs /\ ev.probes[j].x = ""} IN
+        (St.status /\ real # {} /\ St.fault = "") => ((\E j \in real : ev.probes[j].r) \/ Report(t, k, "stuck", "none", {}, {}, <<"the hand is not over and no operation is available">>))
   /\ \A j \in DOMAIN ev.probes :
        LET pr == ev.probes[j]
            mo == Outcome(C, St, pr.op, pr.a)
